@@ -80,6 +80,18 @@ def o_unfold(case):
     f = B.fold(u, m, x.shape)
     same_bits(f, x0, "fold/roundtrip")
     # fold must also accept a list shape and an independent unfolded copy
+    # the same array object is unfolded again after an in-place update: the result must follow the new contents
+    if x.flags.writeable and x.size:
+        x2 = np.roll(x0.ravel(), 1).reshape(x0.shape) if x0.size > 1 else x0.copy()
+        if x0.dtype != np.bool_:
+            x2 = (x2 + x2.dtype.type(1)).astype(x0.dtype)
+        else:
+            x2 = ~x2
+        x[...] = x2
+        same_bits(B.unfold(x, m), ref.unfold(x2, m), "unfold/after-inplace-update")
+        same_bits(B.tensor_to_vec(x), x2.reshape(-1), "tensor_to_vec/after-inplace-update")
+        x[...] = x0
+        same_bits(B.unfold(x, m), ref.unfold(x0, m), "unfold/after-restoring")
     shape_list = list(x.shape)
     f2 = B.fold(np.array(ref.unfold(x0, m)), m, shape_list)
     same_bits(f2, x0, "fold/inverse-of-reference")
